@@ -178,6 +178,42 @@ def user_typed(k: int) -> bool:
     return hx.ok(expect and (getattr(inst, f.name) is v))
 
 
+UNION_USER_CASES = ['cat.UO.pt', 'cat.UO.ptn', 'cat.UO.u', 'cat.UO.un', 'cat.UO.o', 'cat.UO.e', 'cat.UO.en', 'cat.UO.r',
+                    'cat.UCChild.extra', 'cat.UN.w', 'cat.UN.k']
+
+
+@hx.harness(props=['C08'], targets=['stone.backends.python_rsrc.stone_base:Union.__init__'], items=UNION_USER_CASES,
+            bound='user-typed union members (structs incl. all-optional and empty ones, unions; nullable or not): payload = '
+                  'instance of the declared class / a subclass / an unrelated struct / a union / None / an int (finite '
+                  'choice, enumerated by the solver), through the generated classmethod', budget=(60, 120))
+def union_user_typed(k: int) -> bool:
+    """
+    pre: 0 <= k <= 11
+    post: _
+    """
+    dt, f, cls = _lookup(hx.ITEM)
+    cat, cat2 = MODS['cat'], MODS['cat2']
+    ft = accept.unalias(f.data_type)
+    nullable = accept.is_nullable_type(ft)
+    if nullable:
+        ft = accept.unalias(ft.data_type)
+    target = getattr(MODS[ft.namespace.name], fmt_class(ft.name))
+    candidates = [cat.Point(1, 2), cat.Opt(), cat.Empty(), cat.File('n', 1), cat.Res('n'), cat.Wrap(k=1), cat.Uc.v0,
+                  cat.UcChild.w, cat2.BaseU.z, None, 5]
+    v = candidates[k] if k < len(candidates) else ''
+    if v is None:
+        expect = nullable
+    elif is_struct_type(ft):
+        expect = isinstance(v, target)
+    else:
+        expect = issubclass(target, type(v)) and hasattr(v, '_tag')
+    try:
+        inst = getattr(cls, f.name)(v)
+    except bv.ValidationError:
+        return hx.ok(not expect)
+    return hx.ok(expect and inst._tag == f.name and inst._value is v)
+
+
 # ---------------------------------------------------------------- patterns, concretely enumerated strings
 ALPHABET = ('a', 'b', '1', ':', '\\', '\n', 'C', ' ')
 PAT_LEN = hx.tier(3, 4)
